@@ -1415,7 +1415,20 @@ C("_reset_internal", arg_types={**SELF, "clear_packet_queue": T.Bool}, props=("C
       Clause("C11.src.queue_cleared_iff_asked", lambda o, n, r: And_(
           Implies_(B(o.clear_packet_queue), qlen(n.self) == 0),
           Implies_(Not_(B(o.clear_packet_queue)), qlen(n.self) == qlen(o.self))), ("C11",)),
+      # F24 (repaired): the ready counter follows the queue (it used to keep its value when the queue was cleared)
+      Clause("C11.src.ready_counter_follows_the_queue", lambda o, n, r: Implies_(
+          to_z3_int(o.self.states._num_packets_ready) == qlen(o.self),
+          to_z3_int(n.self.states._num_packets_ready) == qlen(n.self)), ("C11", "C10")),
   ],
+  effects=set(), modular=False)
+
+C("reset", arg_types=SELF, props=("C11", "C10"), result=None,
+  requires=REQ_INV, modifies=NOC_MOD,
+  ensures=[
+      Clause("C11.src.public_reset_gives_a_fresh_idle_handler", lambda o, n, r: And_(
+          eq(n.self.states.state, IDLE), eq(n.self.states.step, STEP.IDLE), _fresh_params(n), qlen(n.self) == 0,
+          to_z3_int(n.self.states._num_packets_ready) == 0), ("C11", "C10")),
+  ] + inv_clauses(("C11", "C10")),
   effects=set(), modular=False)
 
 
